@@ -195,11 +195,14 @@ CHECKS = {
  },
  "C10": {
   "category": "proof",
-  "text": "Proved: request lengths do not matter (two reads that fit equal one read of the sum: counts, position, decoder state, queue, cursor). The model is a "
+  "text": "Proved: request lengths do not matter - locally (two reads that fit equal one read of the sum: counts, position, decoder state, queue, cursor) and for "
+          "WHOLE HISTORIES over any page table, any handle state, full or half rate: two sequences of successful reads with arbitrary requested lengths that "
+          "delivered the same number of samples leave the handle in the same state (Read_lemmas.v: a read is priming independent of the length followed by "
+          "handing out min(pending, length); canonical consumption is additive). The model is a "
           "function of the page table only; that byte delivery does not change the page table is libogg's (outside the repo) and is exercised: each file is decoded "
           "through seekable vorbisfile, streaming vorbisfile and the packet API with read callbacks capped at 1..65535 bytes; PCM bit-identical, no hole/error.",
   "note": VF_NOTE,
-  "technique": "Coq proof (read composition) + three-path differential decode under short-read schedules",
+  "technique": "Coq proof (read composition; histories depend on the delivered total only) + three-path differential decode under short-read schedules",
  },
  "C17": {
   "text": "Theorems over exact dyadic sample values (Pcm.v): clip after the x86-64 conversion is the ideal saturating round-to-nearest-even for every "
